@@ -456,6 +456,36 @@ def _delegations(ctx, m, meths):
             got = _reorder_form(ctx, fn, name)
             if got is False:
                 continue
+        if got is None and name in ('index', 'at', '__iter__', '__len__'):
+            # an answer taken from a derived structure (a position cache): every method that reorders _order must drop it
+            derived = sorted({x.attr for x in ast.walk(fn) if isinstance(x, ast.Attribute) and isinstance(x.value, ast.Name)
+                              and x.value.id == 'self' and x.attr not in ('_order', '_values', '_validate_fn')
+                              and isinstance(x.ctx, ast.Load) and not isinstance(getattr(x, '_parent', None), ast.Call)})
+            derived = [d for d in derived if any(isinstance(a_, ast.Assign) and any(norm(t) == 'self.%s' % d for t in a_.targets)
+                                                 for mm in meths.values() for a_ in ast.walk(mm))]
+            if derived:
+                d = derived[0]
+                stale = []
+                for mname, mf in meths.items():
+                    if mname in ('__init__', name):
+                        continue
+                    reorders = any(isinstance(c, ast.Call) and isinstance(c.func, ast.Attribute) and norm(c.func.value) == 'self._order'
+                                   and c.func.attr in ('sort', 'reverse', 'insert', 'append', 'remove', 'pop', 'extend', 'clear')
+                                   for c in ast.walk(mf)) or any(
+                        isinstance(a_, (ast.Assign, ast.Delete)) and any(norm(t).startswith('self._order') for t in (
+                            a_.targets if hasattr(a_, 'targets') else [])) for a_ in ast.walk(mf))
+                    resets = any(isinstance(a_, ast.Assign) and any(norm(t) == 'self.%s' % d for t in a_.targets) for a_ in ast.walk(mf)) \
+                        or any(isinstance(c, ast.Call) and norm(c.func) in ('self.%s.clear' % d,) for c in ast.walk(mf))
+                    if reorders and not resets:
+                        stale.append(mname)
+                if stale:
+                    ctx.violation('C16.D5', '%s::SortableDict.%s' % (F, name), 'self.%s read in %s; not reset by %s' % (d, name, ', '.join(stale)),
+                                  "m = SortableDict over a, b, c, d; m.index('d') (fills the position cache); m.%s(); "
+                                  "m.add_item('y', 0, pos_key='d'): the position of d is answered from the cache built before the "
+                                  "reordering, so y does not land immediately before d" % stale[0],
+                                  'SortableDict.%s answers from self.%s, which %s leave(s) stale after reordering _order'
+                                  % (name, d, ', '.join(stale)), file=F, line=fn.lineno, engine='E9')
+                    continue
         if name == 'sort' and got is None:
             # explicit signature: sort(key=None, reverse=False)
             pnames = [x.arg for x in fn.args.args[1:]]
